@@ -12,6 +12,11 @@ import "verif/simrt"
 // every outcome, and progress (no deadlock, bounded steps).
 func runC06() *RunResult {
 	w := &World{prop: "C06", judgeOutcome: true, race: true}
+	// In 40% of the runs nothing is evaluated before the tasks start: the run-alone
+	// expectations are computed after the tasks were joined.  Otherwise the pre-phase would
+	// always be the first to touch whatever the library initialises or grows lazily (a shared
+	// table, a cache), sequentially, and the tasks would never do it concurrently.
+	post := chance(40)
 	nt := 2 + rn(3)
 	if chance(25) {
 		nt = 2 + rn(15)
@@ -45,16 +50,26 @@ func runC06() *RunResult {
 			p = genPathFor(w.docs[rn(nd)].Val, cfg.Funcs, trap, 4, 2)
 		}
 		pf := soloParse(p, cfg)
-		if chance(25) && pf.Fn != nil {
+		if !post && chance(25) && pf.Fn != nil {
 			soloEval(pf, deepCopy(w.docs[0].Val), [nFuncs]uint64{}, ref) // warmed up
 			warmed[i] = true
 		}
 		w.shared = append(w.shared, pf)
 		cases = append(cases, fnv(p.Text+"|"+w.docs[0].Snap))
 	}
+	var deferred []func()
 	expectCallP := func(p *PathSpec, c CfgSpec, doc int, f, pn [nFuncs]uint64) (string, string) {
 		pf := soloParse(p, c)
 		return soloEvalP(pf, deepCopy(w.docs[doc%nd].Val), f, pn, ref)
+	}
+	// expect computes an operation's expectation now (pre mode) or later (post mode)
+	expect := func(o *Op, f func() (string, string)) {
+		if post {
+			deferred = append(deferred, func() { o.Expect, o.ExpectLog = f(); o.HasExpect = true })
+			return
+		}
+		o.Expect, o.ExpectLog = f()
+		o.HasExpect = true
 	}
 	expectCall := func(p *PathSpec, c CfgSpec, doc int, f [nFuncs]uint64) (string, string) {
 		return expectCallP(p, c, doc, f, [nFuncs]uint64{})
@@ -72,8 +87,7 @@ func runC06() *RunResult {
 				s := rn(ns)
 				sp := w.shared[s]
 				o := &Op{Kind: opCallShared, Slot: s, Doc: rn(nd), Path: sp.Path, Cfg: sp.Cfg, Faults: drawFaults(sp.Path.UsesFuncs), Panics: drawPanics(sp.Path.UsesFuncs)}
-				o.Expect, o.ExpectLog = expectCallP(sp.Path, sp.Cfg, o.Doc, o.Faults, o.Panics)
-				o.HasExpect = true
+				expect(o, func() (string, string) { return expectCallP(sp.Path, sp.Cfg, o.Doc, o.Faults, o.Panics) })
 				t.ops = append(t.ops, o)
 			case 5, 6:
 				cfg := genCfg(true)
@@ -91,7 +105,7 @@ func runC06() *RunResult {
 					slot = 1 // slot 0 keeps the publishable path
 				}
 				o := &Op{Kind: opParse, Path: p, Cfg: cfg, Slot: slot}
-				o.Expect, o.HasExpect = soloParse(p, cfg).Out, true
+				expect(o, func() (string, string) { return soloParse(p, cfg).Out, "" })
 				t.ops = append(t.ops, o)
 				slotPath[slot], slotCfg[slot] = p, cfg
 				if slot == 0 {
@@ -104,8 +118,7 @@ func runC06() *RunResult {
 					continue
 				}
 				o := &Op{Kind: opCall, Slot: slot, Doc: rn(nd), Path: slotPath[slot], Cfg: slotCfg[slot], Faults: drawFaults(slotPath[slot].UsesFuncs)}
-				o.Expect, o.ExpectLog = expectCall(o.Path, o.Cfg, o.Doc, o.Faults)
-				o.HasExpect = true
+				expect(o, func() (string, string) { return expectCall(o.Path, o.Cfg, o.Doc, o.Faults) })
 				t.ops = append(t.ops, o)
 			case 8:
 				cfg := genCfg(true)
@@ -115,12 +128,14 @@ func runC06() *RunResult {
 					p = genFailPath()
 				}
 				o := &Op{Kind: opRetrieve, Path: p, Cfg: cfg, Doc: di, Faults: drawFaults(p.UsesFuncs)}
-				pf := soloParse(p, cfg)
-				o.Expect, o.ExpectLog = soloEval(pf, deepCopy(w.docs[o.Doc%nd].Val), o.Faults, ref)
-				if pf.Fn == nil {
-					o.Expect = pf.Out
-				}
-				o.HasExpect = true
+				expect(o, func() (string, string) {
+					pf := soloParse(p, cfg)
+					e, l := soloEval(pf, deepCopy(w.docs[o.Doc%nd].Val), o.Faults, ref)
+					if pf.Fn == nil {
+						e = pf.Out
+					}
+					return e, l
+				})
 				t.ops = append(t.ops, o)
 			case 9:
 				// Parse hit by an injected panic: only what follows is judged
@@ -144,8 +159,8 @@ func runC06() *RunResult {
 				k := o.Slot % nt
 				if pub[k] != nil {
 					o.Path, o.Cfg = pub[k], pubCfg[k]
-					o.Expect, o.ExpectLog = expectCall(pub[k], pubCfg[k], o.Doc, o.Faults)
-					o.HasExpect = true
+					o := o
+					expect(o, func() (string, string) { return expectCall(pub[k], pubCfg[k], o.Doc, o.Faults) })
 				}
 			}
 		}
@@ -153,8 +168,33 @@ func runC06() *RunResult {
 	simrt.SetMode(simrt.ModeOff)
 	drawSchedule(nt, &w.cfg)
 
+	if post {
+		w.judgeOutcome = false // judged after the join, below
+	}
 	res := w.run()
 	w.progressVerdict(res)
+	if post && res.Violation == nil && res.Stats.Abort == 0 {
+		simrt.SetMode(simrt.ModeSolo)
+		for _, f := range deferred {
+			f()
+		}
+		simrt.SetMode(simrt.ModeOff)
+		res.Probes["expectations-computed-after-the-concurrent-phase"]++
+	judge:
+		for _, t := range w.tasks {
+			for _, o := range t.ops {
+				if !o.Done || !o.HasExpect || o.Got == "NOTHING-PUBLISHED" {
+					continue
+				}
+				res.Judged++
+				if o.Got != o.Expect || (o.GotLog != o.ExpectLog && o.Kind != opParse) {
+					res.Violation = &Violation{Class: "C06:outcome-differs-from-run-alone", Key: pathKey(o),
+						Detail: o.String() + "\n  expected (computed after the tasks were joined) " + clip(o.Expect, 300) + " log=" + clip(o.ExpectLog, 200)}
+					break judge
+				}
+			}
+		}
+	}
 	// reach probe: a shared function that nobody evaluated before the tasks started is called
 	// by two or more tasks (its first evaluation happens under the scheduler)
 	for si := range w.shared {
